@@ -229,7 +229,17 @@ class C09(BaseCheck):
                 pool_ = 'qx0 BFNRTa' + ('"$' if in_uri else ':/?#[]@&=;`')
                 out.append((text[:a + 1] + r.choice(pool_) + text[b:], 'bad-escape', 'escape letter replaced by an illegal one at %d' % a))
             else:
-                out.append((text[:a + 3] + 'g' + text[a + 4:], 'bad-escape', 'non-hex digit in \\u escape at %d' % a))
+                how = r.choice(['g', 'sign', 'blank', 'underscore', 'short'])
+                if how == 'short' and text[b:b + 1] in ('"', '`'):
+                    # the escape is the last thing in the literal: fewer than four hex digits before the closing quote
+                    cut = r.choice([1, 2, 3])
+                    out.append((text[:b - cut] + text[b:], 'bad-escape', '\\u escape with only %d hex digits at %d' % (4 - cut, a)))
+                elif how in ('sign', 'blank', 'underscore'):
+                    ch = {'sign': '+', 'blank': ' ', 'underscore': '_'}[how]
+                    pos = a + 2 if how != 'underscore' else a + 4
+                    out.append((text[:pos] + ch + text[pos + 1:], 'bad-escape', '%r among the four hex digits of a \\u escape at %d' % (ch, a)))
+                else:
+                    out.append((text[:a + 3] + 'g' + text[a + 4:], 'bad-escape', 'non-hex digit in \\u escape at %d' % a))
         # an upper-cased name is only guaranteed-broken where nothing else may start with a capital:
         # a column name (after a newline or a comma) or the first name inside a dict.  A name that follows
         # a value and a blank can legally be read as the time-zone label of a preceding date-time
